@@ -225,6 +225,7 @@ private:
 
   int _last_c;
   int _expand_depth = 0;
+  int _template_nesting = 0;
   bool _last_cpp_comment;
   bool _save_comments;
 
